@@ -211,6 +211,17 @@ def type_name_grid(ck, tier, auto):
                     mods.append("pub mod m%d { #[::derive_ex::derive_ex(%s)] %s }" % (k, tr, body))
             progs.append("#![allow(dead_code, non_camel_case_types)]\n" + "\n".join(mods))
             meta.append({"name": nm, "shape": shape, "mods": mods})
+    # the annotated type named like (the last segment of) the type of one of its fields: a different type all the same
+    trs = "Clone, Debug, Default, PartialEq, Eq, PartialOrd, Ord, Hash"
+    for nm, decl in (("Wrapper", "pub mod inner { #[derive(Clone, Debug, Default, PartialEq, Eq, PartialOrd, Ord, Hash)] pub struct Wrapper<T>(pub T); }\n"
+                                 "#[::derive_ex::derive_ex(%s)] pub struct Wrapper<T>(pub inner::Wrapper<T>, pub u8);" % trs),
+                     ("Option", "#[::derive_ex::derive_ex(%s)] pub struct Option<T>(pub ::core::option::Option<T>);" % trs),
+                     ("Vec", "#[::derive_ex::derive_ex(%s)] pub enum Vec<T> { #[default] Empty, Items { items: ::std::vec::Vec<T> } }" % trs),
+                     ("PhantomData", "#[::derive_ex::derive_ex(%s)] pub struct PhantomData<T, U>(pub ::core::marker::PhantomData<T>, pub ::core::option::Option<U>);" % trs),
+                     ("Box", "#[::derive_ex::derive_ex(Clone, Debug, PartialEq)] pub struct Box<T>(pub ::core::option::Option<::std::boxed::Box<(T, ::std::boxed::Box<u8>)>>);")):
+        mods = ["pub mod m0 { %s }" % decl]
+        progs.append("#![allow(dead_code, non_camel_case_types)]\n" + "\n".join(mods))
+        meta.append({"name": nm, "shape": "same_as_field_type", "mods": mods})
     wd = os.path.join(dx.WORK, "c13tn-%d" % os.getpid())
 
     def comp(ix):
